@@ -64,6 +64,12 @@ func yslow(id int) {
 		return
 	}
 	SiteHits[id]++
+	if s.budget > 0 {
+		s.budget--
+		if s.budget == 0 {
+			panic(BudgetExceeded)
+		}
+	}
 	if !s.armed[id] {
 		return
 	}
@@ -114,5 +120,25 @@ func (s *Sim) ArmDraw(files []string) {
 		s.Arm(files, 1, 2, sel)
 	case 4:
 		s.Arm(files, 1, 1, sel)
+	}
+}
+
+type budgetErr struct{}
+
+func (budgetErr) Error() string { return "zsim: statement budget exceeded" }
+
+// RuntimeError makes the value a runtime.Error, so that code under test that
+// recovers "ordinary" errors (the CBOR decoder does) lets it through.
+func (budgetErr) RuntimeError() {}
+
+// BudgetExceeded is the panic value raised when the statement budget set with
+// SetBudget runs out (a termination bound for code that must be total).
+var BudgetExceeded = budgetErr{}
+
+// SetBudget bounds the number of instrumented statements executed from now on
+// (0 = unlimited).
+func SetBudget(n int64) {
+	if S != nil {
+		S.budget = n
 	}
 }
